@@ -38,6 +38,17 @@ and `None` iff there is none. -/
 theorem T16_leaf_get (es : List LeafEntry) (key : Nat) (h : LeafAsc es) :
     leafGet es key = .ok (leafSpec es key) := leafGet_spec es key h
 
+/-- **T16.route-by-separators** (the C10 link: lookups after reopen = lookups before close) — two well-formed indexes
+that hold the same `(separator, leaf page)` pairs — however the pairs are grouped into branch nodes, under whatever page
+numbers the nodes live, in whatever order they were inserted — route EVERY key to the same leaf page, without a panic.
+With `T10_reconstruct_is_live_index` (the index rebuilt at open holds exactly the live nodes of the image, which are the
+nodes of the index the last sync left) the `partial_lookup` of the reopened tree equals that of the tree before close. -/
+theorem T16_route_depends_on_separators_only (a b : Index) (ha : IndexWF a) (hb : IndexWF b)
+    (hsame : ∀ x, x ∈ a.flat ↔ x ∈ b.flat) (key : Nat) :
+    partialLookup a key = partialLookup b key ∧ partialLookup a key = .ok (findLeaf a.flat key) := by
+  rw [partialLookup_spec a key ha, partialLookup_spec b key hb, findLeaf_congr ha.asc hb.asc hsame key]
+  exact ⟨rfl, rfl⟩
+
 /-! ### non-vacuity: prefix `01`, two compressed separators and an uncompressed one; a two-node index -/
 
 def exNode : BNode :=
@@ -65,5 +76,16 @@ def exNode0 : BNode := { bbnPn := 2, pl := 0, pc := 1, pfx := 0, seps := [(0, 7)
 example : partialLookup [(0, exNode0), (2 ^ 254, exNode)] (2 ^ 250) = .ok (some 8) ∧
     partialLookup [(0, exNode0), (2 ^ 254, exNode)] (2 ^ 255) = .ok (some 11) ∧
     findLeaf (Index.flat [(0, exNode0), (2 ^ 254, exNode)]) (2 ^ 255) = some 11 := by decide
+
+/-- the same five separators grouped differently (one node / two nodes) -/
+def exNodeAll : BNode :=
+  { bbnPn := 9, pl := 0, pc := 1, pfx := 0,
+    seps := [(0, 7), (2 ^ 200, 8), (2 ^ 254, 10), (2 ^ 254 + 2 ^ 200, 11), (3 * 2 ^ 254, 12)] }
+
+example : partialLookup [(0, exNodeAll)] (2 ^ 255) = partialLookup [(0, exNode0), (2 ^ 254, exNode)] (2 ^ 255) ∧
+    (∀ x, x ∈ Index.flat [(0, exNodeAll)] ↔ x ∈ Index.flat [(0, exNode0), (2 ^ 254, exNode)]) := by
+  refine ⟨by decide, fun x => ?_⟩
+  have : Index.flat [(0, exNodeAll)] = Index.flat [(0, exNode0), (2 ^ 254, exNode)] := by decide
+  rw [this]
 
 end Nomt.C16
